@@ -85,7 +85,11 @@ def stateless_per_sample(fx, b, rep):
     if per_change is None:
         return 0
     body = loops[per_change]
-    for bb, t in fc.calls("Iterator::next"):
+    # every use of an iterator inside the loop: next(), or a consuming / searching adaptor (find_map, any, position, ..)
+    CONSUMERS = ("next", "next_back", "nth", "find", "find_map", "any", "all", "position", "rposition", "fold", "count", "last", "max", "min", "sum",
+                 "for_each", "collect", "try_fold")
+    uses = [(bb, t) for bb, t in m.calls() if not t.callee.indirect and t.callee.method() in CONSUMERS and (t.callee.trait or "").endswith("Iterator") and t.args]
+    for bb, t in uses:
         if bb not in body or t.callee.indirect:
             continue
         st = t.callee.self_ty or ""
